@@ -506,6 +506,7 @@ func t1() {
 	}
 	if _, f := parseFile("internal/execute/sm/final.go"); f != nil {
 		b.WriteString(t1Translate(f, []string{"examineBypasses"}, "internal/execute/sm/final.go"))
+		b.WriteString(t1ExamineChecks(f))
 	} else {
 		b.WriteString("def finalGoMissing : Unit := source_file_not_found\n")
 	}
